@@ -8,7 +8,7 @@ VARIABLE o
 Obs == INSTANCE TunObs
 
 CfgEv == [NoEv EXCEPT !.k = "Cfg", !.a = R * Unit, !.b = T * Unit, !.g = IF EnableHB THEN H * Unit ELSE 1000000000,
-                      !.pid = 1, !.s = IF UseTCP THEN "tcp,bubble" ELSE "udp,bubble"]
+                      !.pid = 1, !.seq = M, !.s = IF UseTCP THEN "tcp,bubble" ELSE "udp,bubble"]
 
 Feed(oo, e) == IF e.k = "none" THEN oo ELSE Obs!Step(oo, e)
 
@@ -18,7 +18,8 @@ MCSpec == MCInit /\ [][MCNext]_<<vars, o>>
 
 Known == {"C05.F1.BusExactlyOnce", "C17.F1.InOrder"}
 C05Tags == {"C05.BusExactlyOnce", "C05.BusOrder", "C05.BusTwice", "C05.AppExactlyOnce", "C05.AppOrder", "C05.F1.BusExactlyOnce"}
-\* C05 assumes a rule-following gateway and no forged acknowledgements: not judged with the adversary on
-ObsQuiet == \A i \in 1..Len(o.bad) : o.bad[i] \in Known \cup (IF Adversary THEN C05Tags ELSE {})
+\* C05 assumes a rule-following gateway, no forged acknowledgements and datagrams that do not outlive
+\* their connection: not judged with the adversary on or across reconnects
+ObsQuiet == \A i \in 1..Len(o.bad) : o.bad[i] \in Known \cup (IF Adversary \/ MaxEpoch > 1 THEN C05Tags ELSE {})
 Bounded == now <= MaxNow
 =============================================================================
